@@ -165,8 +165,47 @@ def gen_presets() -> dict:
     return out
 
 
+# --------------------------------------------------------------------------
+# shape of the shared accesses in Ruler.getRules / Ruler.__compile__ (C13)
+
+
+def gen_ruler_shape() -> dict:
+    """Sequence of bytecode-level accesses to the shared attribute self.__cache__ (0 = load,
+    1 = store, 2 = call of self.__compile__) in bytecode order.  The concurrency model
+    (Model/Conc.v) implements exactly the shape it states in [expected_shape]; Props/C13.v
+    proves generated = expected by reflexivity, so an edit that changes how the cache is
+    published breaks that obligation."""
+    import dis
+
+    ruler = importlib.import_module("markdown_it.ruler")
+
+    def shape(fn):
+        out = []
+        for ins in dis.get_instructions(fn):
+            if ins.opname in ("LOAD_ATTR", "LOAD_METHOD") and ins.argval == "__cache__":
+                out.append(0)
+            elif ins.opname in ("STORE_ATTR", "DELETE_ATTR") and ins.argval == "__cache__":
+                out.append(1)
+            elif ins.opname in ("LOAD_ATTR", "LOAD_METHOD") and ins.argval == "__compile__":
+                out.append(2)
+            elif ins.opname in ("STORE_GLOBAL", "DELETE_GLOBAL"):
+                raise GenError(f"ruler.{fn.__name__}: writes a module global ({ins.argval})")
+        return out
+
+    try:
+        comp = shape(ruler.Ruler.__compile__)
+        get = shape(ruler.Ruler.getRules)
+    except AttributeError as e:
+        raise GenError(f"ruler.py: {e}")
+    lines = [HEADER, "(* accesses to self.__cache__: 0 load, 1 store, 2 call self.__compile__ *)\n",
+             f"Definition compile_shape : list Z := [{'; '.join(map(str, comp))}].\n",
+             f"Definition getRules_shape : list Z := [{'; '.join(map(str, get))}].\n"]
+    write_if_changed(GEN / "RulerShape.v", "".join(lines))
+    return {"compile": comp, "getRules": get}
+
+
 def gen_all() -> dict:
-    return {"rules": gen_rules(), "presets": gen_presets()}
+    return {"rules": gen_rules(), "presets": gen_presets(), "ruler_shape": gen_ruler_shape()}
 
 
 if __name__ == "__main__":
